@@ -123,6 +123,16 @@ def check_positions(prop: str, res: Result, repo: Repo, cas: List[ClassAnalysis]
                     res.ok(rule, {"site": f"{ca.ci.module.relpath}:{s.line} {label}", "goal": f"{pos!r} <= t"})
                 else:
                     res.fail(rule, finding(prop, rule, fn, s.node, f"position {pos!r} is not provably <= the evaluated index (reads a later candle); facts: {describe_facts(facts)}"))
+        if "R-WRAP" in want:
+            # candles_sum answers None for absolute index 0 (its guard is `if not index_`): a formula that does arithmetic on the
+            # result must only ask for it at a position >= 1
+            for s in ca.sites("candles-sum-at"):
+                at_ = s.data["at"]
+                facts, extra = site_context(ca, s)
+                if prove_ge0(at_ - ONE, facts, extra):
+                    res.ok("R-WRAP", {"site": f"{ca.ci.module.relpath}:{s.line} candles_sum at {at_!r}", "why": "position >= 1: the helper returns a number"})
+                else:
+                    res.fail("R-WRAP", finding(prop, "R-WRAP", fn, s.node, f"candles_sum is asked for position {at_!r}, which is not provably >= 1: at absolute index 0 the helper returns None and the arithmetic on it raises TypeError; facts: {describe_facts(facts)}"))
         for s in ca.sites("candles-window"):
             lo, hi = s.data["lo"], s.data["hi"]
             facts, extra = site_context(ca, s)
